@@ -76,16 +76,21 @@ func ParseProgram(fsys fs.FS) (*ast.Tree, error) {
 				break
 			}
 			if tree, ok := trees[imp.Path]; ok {
-				// Check if there is a cycle.
-				for i, p := range imports {
-					if p.Path == imp.Path {
+				// Check if there is a cycle. The packages that are importing
+				// n, directly or indirectly, are the already parsed ones in
+				// imports; the others are still to be parsed.
+				for _, p := range imports {
+					if p.Tree != nil && p.Path == imp.Path {
 						// There is a cycle.
 						err := &CycleError{
 							path: p.Path,
 							pos:  *(imp.Pos()),
 						}
 						err.msg = "package "
-						for i, imp = range imports {
+						for i, imp := range imports {
+							if imp.Tree == nil {
+								continue
+							}
 							if i > 0 {
 								err.msg += "\n\timports "
 							}
